@@ -11,6 +11,7 @@ pub mod c12;
 pub mod c13;
 pub mod c16;
 pub mod c17;
+pub mod c19;
 
 pub struct Prop {
     pub id: &'static str,
@@ -29,6 +30,7 @@ pub const PROPS: &[Prop] = &[
     Prop { id: "C13", level: "exploration", run: c13::run, replay: c13::replay },
     Prop { id: "C16", level: "fault_enumeration", run: c16::run, replay: c16::replay },
     Prop { id: "C17", level: "exploration", run: c17::run, replay: c17::replay },
+    Prop { id: "C19", level: "exploration", run: c19::run, replay: c19::replay },
 ];
 
 pub fn find(id: &str) -> Option<&'static Prop> {
